@@ -87,6 +87,10 @@ def opsRefs (op : String) (j : Json) : Option (Except String Json) :=
         pure (Json.mkObj [("ipar_x", optStr (isParentARepeat reps x)), ("ipar_c", optStr (isParentARepeat reps c)),
                           ("ssrp", ss), ("related", rel)])
       pure (Json.arr out.toArray)
+  | "refs.valid" => some do
+      -- is the hypothesis `Valid` of `relative_when_enclosed` met by this tree?
+      let tree ← elOfJson (← j.getObjVal? "tree")
+      pure (Json.bool (decide (Valid (tree.chains []))))
   | _ => none
 
 end Pyxv.Refs
